@@ -44,6 +44,32 @@ def run(ctx):
         insts = [(os.environ['VERIF_C07_INST'], int(a[0]), int(a[1]), int(a[2]), int(a[3]), int(a[4]), len(a) > 5 and a[5] == '1')]
     ctx.bounds['instances'] = [dict(zip(('name', 'senders', 'msgs', 'drainers', 'rounds', 'cas_unroll', 'spurious'), i)) for i in insts]
     ctx.parallel(run_instance_job, [i for i in insts])
+    # loop side: the dequeued marker ends the loop with reason "Drained" (sequential, real process_message of each runtime)
+    import C02_dequeue
+    import C02_dequeue_replay
+    import lifecycle as lc
+    lprog = lc.load()[0]
+    dq = C02_dequeue.instances(ctx.tier)
+    for rt in sorted({i[0] for i in dq}):
+        b = lprog.find_fn('%s::<TActor>::process_message' % rt)
+        if b is None:
+            raise Inconclusive('function not found in dump: %s::process_message' % rt)
+        ctx.encoded(lprog, b)
+    ctx.bounds['loop_side'] = {'instances': [dict(zip(('runtime', 'poll_budget'), i)) for i in dq],
+                               'scope': 'one process_message iteration from an arbitrary loop-head state (symbolic ports: marker, plain or serialized message at the head of the queue; kill possible at every poll)',
+                               'outside': 'propagation of the loop exit reason to the terminal supervision event is the lifecycle check (C04); observed natively here (battery)'}
+    ctx.parallel(C02_dequeue.drain_job, dq)
+    try:
+        res = C02_dequeue_replay.battery()
+        ctx.translator_validated += len(res)
+        bad = [r for r in res if r['violated']]
+        ctx.extra['loop_native_battery'] = res
+        if bad:
+            rec = {'name': 'loop.native_battery', 'group': 'C07.loop', 'solver_s': 0.0, 'status': 'cex'}
+            ctx.obligations.append(rec)
+            ctx.handle_cex(rec['name'], 'C07.loop.native', None, lambda _m: {'replayed': True, 'detail': 'real actor with sender threads: %s' % bad[:3], 'replay': {'which': 'dequeue'}}, rec)
+    except RuntimeError as e:
+        ctx.inconclusive.append('loop-side native battery unavailable: %s' % str(e)[-300:])
 
 
 def run_instance_job(sub, name, ns, nm, nd, R, U, spurious):
@@ -55,4 +81,7 @@ def replay_file(path):
     import json
     import mailbox_replay
     d = json.load(open(path))
+    if (d.get('replay') or {}).get('which') == 'dequeue':
+        import C02_dequeue_replay
+        return C02_dequeue_replay.replay_from_json(d)
     return mailbox_replay.replay_from_json(d)
